@@ -56,10 +56,10 @@ Init == /\ MemInit
         /\ keyof = [n \in Nodes |-> IF n <= Len(Keys0) THEN Keys0[n] ELSE 0]
         /\ g = [t \in Threads |-> G0]
         /\ bad = "ok"
-        /\ last = [t |-> -1, k |-> "init", lab |-> "init", v |-> 0, ok |-> 1]
+        /\ last = [t |-> -1, k |-> "init", lab |-> "init", v |-> 0, ok |-> 1, n |-> 0]
 
 Goto(t, l) == pc' = [pc EXCEPT ![t] = l]
-Acc(t, k, lab, v, ok) == last' = [t |-> t, k |-> k, lab |-> lab, v |-> v, ok |-> ok]
+Acc(t, k, lab, v, ok) == last' = [t |-> t, k |-> k, lab |-> lab, v |-> v, ok |-> ok, n |-> last.n + 1]    \* n: access counter
 Return(t, r, v) == lin' = MonRet(lin, t, r, v) /\ Goto(t, "idle")
 
 \* ---- abstract reclaimer -----------------------------------------------------------------------
